@@ -30,3 +30,8 @@ LEVEL_TEXT["C12"] = ("Exploration: rapid state machines over the byte-slice pool
                      "a generated multi-goroutine Get/Put script, and a mixed ring-pool + byte-slice-pool machine whose ring writes force growth (which recycles storage through the byte-slice pool). "
                      "Oracle: a ledger of memory ranges (handed-out ranges pairwise disjoint, every Get inside one returned range or fresh memory) plus canary patterns over the full capacity.")
 LEVEL_NOTE["C12"] = "Addresses are compared while the harness keeps every slice reachable; allocation sizes up to 2^20 (the size-class arithmetic up to 2^31 is C20); engine-level consequences are covered by the content oracles of C01/C02."
+
+LEVEL_TEXT["C14"] = ("Exploration: a rapid state machine drives the registry (compiled twice: default map, gc_opt compacting matrix) through add/remove/lookup/iterate/iterate-and-remove-all "
+                     "sequences and compares every lookup, the count and the iteration set with a Go map; for the matrix each live connection's stored (row, column) must point at itself. "
+                     "A second generator builds populations just around 65536 entries to cross the row boundary.")
+LEVEL_NOTE["C14"] = "Internal test file overlaid into package gnet (uses addConn/delConn/getConn/iterate/loadCount and, for the matrix, its fields); bare conn values; both build variants."
